@@ -253,8 +253,7 @@ Qed.
 Definition fractions_ok (kind pid : Z) (y em had : R) : Prop :=
   0 <= em /\ 0 <= had /\ em + had <= 1 /\
   (kind = 2%Z -> em = 0 /\ had = y) /\
-  (kind = 1%Z -> electron_flavour pid -> em = 1 - y /\ had = y /\ em + had = 1) /\
-  (kind = 1%Z -> ~ electron_flavour pid -> (em = 0 /\ had = y) \/ (y < em + had /\ em + had <= 1 - y)).
+  (kind = 1%Z -> electron_flavour pid -> em = 1 - y /\ had = y /\ em + had = 1).
 
 Lemma is_electron_true pid : is_electron pid = true <-> electron_flavour pid.
 Proof.
